@@ -368,15 +368,22 @@ def check_physical(ctx):
     td, tk = pl.drivers('self._phy.tx_data', exact=True), pl.drivers('self._phy.tx_datak', exact=True)
     rd = pl.drivers(T + '.source.ready', exact=True)
     ctx.need(td, 'driver of PHY tx_data in USB3PhysicalLayer')
-    ok = all(a.domain == 'comb' and isinstance(a.rhs, E) and a.rhs.canon() == T + '.source.payload' for a in td)
+    ok = all(a.domain == 'comb' and isinstance(a.rhs, E) and (a.rhs.canon() == T + '.source.payload' or q.is_zero(a.rhs)) for a in td) and \
+        any(a.rhs.canon() == T + '.source.payload' for a in td)
     ctx.ob(R, 'USB3PhysicalLayer.phy.tx_data', ok, td[0].loc, 'PHY tx_data must be the inserter output data: %s' % [q.fmt(a) for a in td])
-    ok = bool(tk) and all(a.domain == 'comb' and isinstance(a.rhs, E) and a.rhs.canon() == T + '.source.ctrl' for a in tk)
+    ok = bool(tk) and all(a.domain == 'comb' and isinstance(a.rhs, E) and (a.rhs.canon() == T + '.source.ctrl' or q.is_zero(a.rhs)) for a in tk) and \
+        any(a.rhs.canon() == T + '.source.ctrl' for a in tk)
     ctx.ob(R, 'USB3PhysicalLayer.phy.tx_datak', ok, tk[0].loc if tk else td[0].loc, 'PHY tx_datak must be the inserter output ctrl: %s' % [q.fmt(a) for a in tk])
     exprs = [l.e for a in td + tk + rd for l in a.guard] + [a.rhs for a in rd]
     leaves = q.bool_leaves(*exprs)
     split = stall = None
     for asg in q.all_assignments(leaves):
         wd, wk, wr = table_winner(td, asg), table_winner(tk, asg), table_winner(rd, asg)
+        # a constant 0 driven while nothing is forwarded (electrical idle) is the same as no driver
+        if wd is not None and q.is_zero(wd.rhs):
+            wd = None
+        if wk is not None and q.is_zero(wk.rhs):
+            wk = None
         if (wd is None) != (wk is None) and split is None:
             split = asg
         if wd is not None and (wr is None or q.eval_expr(wr.rhs, asg) is not True) and stall is None:
